@@ -1,6 +1,6 @@
 (* C20 — proofs: the file encoding round-trips, a restart loads exactly the remembered list, and a
    death at any file-system step leaves the list before or after the interrupted operation. *)
-From C20 Require Import Model Spec.
+From C20 Require Import Model Spec ProofsClear.
 Open Scope N_scope.
 
 (* ---------- split_on ---------- *)
@@ -135,6 +135,17 @@ Proof.
     + intros q Hq. rewrite H2 by exact Hq. destruct p, q; try reflexivity; congruence.
 Qed.
 
+(* rewriting through the temporary file: afterwards the file holds exactly the forms written and the
+   temporary file is gone, whatever was in it before *)
+Lemma exec_rewrite d keep : exec_prims d (rewrite_prims keep) = {| d_hist := Some (encode keep); d_tmp := None |}.
+Proof.
+  unfold rewrite_prims, exec_prims. cbn [fold_left]. rewrite fold_left_app. cbn [fold_left].
+  set (d1 := exec_prim d (POpen PTmp true)).
+  assert (Ht : dget d1 PTmp = Some []) by (unfold d1; cbn; destruct (d_tmp d); reflexivity).
+  destruct (exec_writes PTmp d1 [] keep Ht) as [H1 _]. fold (exec_prims d1 (map (fun g => PWrite PTmp (tab_append g)) keep)).
+  cbn [dget] in H1. cbn [exec_prim]. rewrite H1. reflexivity.
+Qed.
+
 Definition op_ok (o : op) : Prop := match o with OAdd f => encodable f = true \/ form_empty f = true | _ => True end.
 
 (* one operation: the invariant is kept and memory follows the specification *)
@@ -143,7 +154,7 @@ Theorem step_spec h d o :
   let '((h', d'), _) := step (h, d) o in
   Inv h' d' /\ (forms h', limit h') = spec_step (forms h, limit h) o.
 Proof.
-  intros HI Ho. destruct o as [f| |n|]; cbn [step].
+  intros HI Ho. destruct o as [f|cs ce|n|]; cbn [step].
   - (* Add *)
     unfold add, spec_step, spec_add, hmax.
     destruct ((limit h <=? 0)%Z || form_empty f) eqn:E1; [split; [exact HI|reflexivity]|].
@@ -168,8 +179,9 @@ Proof.
       destruct Hd as [Hd|[Hd Hn]].
       * rewrite !Hd. cbn [d_hist]. rewrite encode_app. unfold encode at 3. cbn [flat_map]. rewrite app_nil_r. reflexivity.
       * rewrite !Hd, Hn. cbn. unfold encode. cbn. rewrite app_nil_r. reflexivity.
-  - (* Clear *)
-    cbn. split; [|reflexivity]. split; [constructor|]. left. unfold exec_prims; cbn. destruct (d_hist d); reflexivity.
+  - (* Clear: the range arithmetic is the specification's; the file is rewritten through the temporary file *)
+    unfold clear. cbn [fst snd forms limit spec_step]. rewrite exec_rewrite, <- clear_range_spec.
+    split; [|reflexivity]. destruct HI as [He _]. split; [apply Forall_clear_range, He|]. left. reflexivity.
   - (* SetLimit *)
     cbn. split; [exact HI|reflexivity].
   - (* Restart *)
@@ -206,6 +218,20 @@ Proof. revert l; induction n as [|n IH]; intros l H; [reflexivity|]. destruct l;
 Lemma load_hist_eq d1 d2 : d_hist d1 = d_hist d2 -> load d1 = load d2.
 Proof. unfold load. intros ->. reflexivity. Qed.
 
+(* the file itself is untouched until the rename, the last step *)
+Lemma rewrite_crash d keep k : (k < List.length (rewrite_prims keep))%nat ->
+  d_hist (exec_prims d (firstn k (rewrite_prims keep))) = d_hist d.
+Proof.
+  intros Hk. apply tmp_only_hist. unfold rewrite_prims in *.
+  set (ws := map (fun g => PWrite PTmp (tab_append g)) keep) in *.
+  cbn [List.length] in Hk. rewrite app_length in Hk. cbn [List.length] in Hk.
+  replace (firstn k (POpen PTmp true :: ws ++ [PRename])) with (firstn k (POpen PTmp true :: ws)).
+  - apply forallb_firstn. cbn [forallb tmp_only andb]. unfold ws. rewrite forallb_forall. intros x Hx.
+    apply in_map_iff in Hx as (g & <- & _). reflexivity.
+  - rewrite !app_comm_cons. rewrite firstn_app. cbn [List.length].
+    replace (k - S (List.length ws))%nat with 0%nat by lia. cbn [firstn]. rewrite app_nil_r. reflexivity.
+Qed.
+
 Theorem crash_one_op h d o k :
   Inv h d -> op_ok o ->
   let '((h', d'), xs) := step (h, d) o in
@@ -220,12 +246,12 @@ Proof.
     assert (d' = exec_prims d xs) as <-.
     { destruct o; cbn [step] in Es.
       - destruct (add h f); injection Es as _ <- <-; reflexivity.
-      - destruct (clear_all h); injection Es as _ <- <-; reflexivity.
+      - unfold clear in Es. injection Es as _ <- <-; reflexivity.
       - injection Es as _ <- <-; reflexivity.
       - injection Es as _ <- <-; reflexivity. }
     apply Inv_load, HI'.
   - left. rewrite <- (Inv_load h d HI).
-    destruct o as [f| |n|]; cbn [step] in Es.
+    destruct o as [f|cs ce|n|]; cbn [step] in Es.
     + unfold add in Es.
       destruct ((limit h <=? 0)%Z || form_empty f); [injection Es as _ _ <-; destruct k; reflexivity|].
       destruct (match rev (forms h) with l :: _ => form_eqb f l | [] => false end); [injection Es as _ _ <-; destruct k; reflexivity|].
@@ -245,7 +271,7 @@ Proof.
         cbn [firstn]. unfold exec_prims; cbn [fold_left exec_prim dget].
         destruct HI as [_ [Hd|[Hd Hn]]]; rewrite Hd; [reflexivity|].
         unfold load. cbn. rewrite Hd. reflexivity.
-    + injection Es as _ _ <-. cbn [List.length] in Hk. destruct k; [reflexivity|lia].
+    + unfold clear in Es. injection Es as _ _ <-. apply load_hist_eq, rewrite_crash, Hk.
     + injection Es as _ _ <-. destruct k; reflexivity.
     + injection Es as _ _ <-. destruct k; reflexivity.
 Qed.
@@ -258,7 +284,7 @@ Lemma step_prims_exec h d o : let '((_, d'), xs) := step (h, d) o in d' = exec_p
 Proof.
   destruct o; cbn [step].
   - destruct (add h f); reflexivity.
-  - destruct (clear_all h); reflexivity.
+  - reflexivity.
   - reflexivity.
   - reflexivity.
 Qed.
@@ -309,9 +335,49 @@ Qed.
 Lemma form_eqb_false a b : form_eqb a b = false -> a <> b.
 Proof. unfold form_eqb. destruct (list_eq_dec (list_eq_dec N.eq_dec) a b); [discriminate|auto]. Qed.
 
-Theorem spec_no_adjacent_duplicates st o : no_adj_dup (fst st) -> no_adj_dup (fst (spec_step st o)).
+Lemma no_adj_dup_firstn n : forall fs, no_adj_dup fs -> no_adj_dup (firstn n fs).
 Proof.
-  destruct st as [fs lim]. intros H. destruct o as [f| |n|]; cbn [spec_step fst]; try exact H; [|exact I].
+  induction n as [|n IH]; intros fs H; [exact I|]. destruct fs as [|a fs]; [exact I|]. cbn [firstn].
+  destruct fs as [|b fs]; [destruct n; exact I|]. destruct H as [Hab Ht]. specialize (IH _ Ht).
+  destruct n as [|n]; [exact I|]. cbn [firstn] in *. split; [exact Hab|exact IH].
+Qed.
+
+(* Clearing a range that reaches the most recent or the oldest entry leaves a prefix or a suffix.  (A range
+   strictly inside can bring two equal entries together: spec_clear [a; b; a] 1 1 = [a; a]; "not duplicated"
+   is Add's rule - a form equal to the most recent one is not recorded - and both the code and the
+   specification keep such a pair across a restart.) *)
+Definition clear_at_end (fs : list form) (o : op) : Prop :=
+  match o with OClear s e => (s <= 0 \/ e < 0 \/ Z.of_nat (List.length fs) <= e)%Z | _ => True end.
+
+Lemma no_adj_dup_clear_at_end fs s e :
+  (s <= 0 \/ e < 0 \/ Z.of_nat (List.length fs) <= e)%Z -> no_adj_dup fs -> no_adj_dup (spec_clear fs s e).
+Proof.
+  intros Hc H. rewrite <- clear_range_spec. unfold clear_range.
+  set (n := Z.of_nat (List.length fs)) in *.
+  destruct ((0 <? n)%Z && (s <? n)%Z) eqn:E0; [|exact H]. apply andb_true_iff in E0 as [E0 E1].
+  apply Z.ltb_lt in E0. apply Z.ltb_lt in E1.
+  destruct (_ <=? _)%Z eqn:E2; [|exact H].
+  destruct (Z_le_gt_dec s 0) as [Hs|Hs].
+  - (* from the most recent entry: a prefix stays *)
+    assert (Hs' : (if (s <? 0)%Z then 0%Z else s) = 0%Z) by (destruct (s <? 0)%Z eqn:E; [reflexivity|apply Z.ltb_ge in E; lia]).
+    rewrite Hs'. rewrite (skipn_all2 fs) by (unfold n; lia). rewrite app_nil_r. apply no_adj_dup_firstn, H.
+  - (* to the oldest entry: a suffix stays *)
+    assert (He' : (if ((e <? 0) || (n <=? e))%Z then (n - 1)%Z else e) = (n - 1)%Z).
+    { destruct Hc as [Hc|[Hc|Hc]]; [lia| |].
+      - replace (e <? 0)%Z with true by (symmetry; apply Z.ltb_lt; exact Hc). reflexivity.
+      - replace (n <=? e)%Z with true by (symmetry; apply Z.leb_le; exact Hc). rewrite orb_true_r. reflexivity. }
+    rewrite He'. replace (Z.to_nat (n - 1 - (n - 1))) with 0%nat by lia. cbn [firstn app]. apply no_adj_dup_skipn, H.
+Qed.
+
+Lemma clear_middle_joins :
+  let a : form := [[97]] in let b : form := [[98]] in spec_clear [a; b; a] 1 1 = [a; a].
+Proof. vm_compute. reflexivity. Qed.
+
+Theorem spec_no_adjacent_duplicates st o :
+  no_adj_dup (fst st) -> clear_at_end (fst st) o -> no_adj_dup (fst (spec_step st o)).
+Proof.
+  destruct st as [fs lim]. intros H Hc. destruct o as [f|s e|n|]; cbn [spec_step fst]; try exact H.
+  2:{ apply no_adj_dup_clear_at_end; [exact Hc|exact H]. }
   unfold spec_add. destruct ((lim <=? 0)%Z || form_empty f); [exact H|].
   destruct (match rev fs with l :: _ => form_eqb f l | [] => false end) eqn:E; [exact H|].
   assert (Hn : no_adj_dup (fs ++ [f])).
@@ -348,13 +414,68 @@ Proof. vm_compute. split; [reflexivity|discriminate]. Qed.
 Definition F (n : N) : form := [[40; 102; 32; 48 + n; 41]].
 Definition ex_ops : list op :=
   [OAdd (F 1); OAdd (F 2); OAdd [[40; 100]; []; [32; 120; 41]]; ORestart; OLimit 3; OAdd (F 3); OAdd (F 3); OAdd (F 4);
-   ORestart; OClear; OAdd (F 5)].
+   ORestart; OClear 1 1; ORestart; OClear 0 (-1); OAdd (F 5)].
 Lemma example_ok :
   Inv (fst start0) (snd start0) /\ Forall op_ok ex_ops /\
-  List.length (snd (run start0 ex_ops)) = 19%nat /\
+  List.length (snd (run start0 ex_ops)) = 24%nat /\
   fst (spec_run ([], 10%Z) ex_ops) = [F 5].
 Proof.
   split; [split; [constructor|right; split; reflexivity]|]. split.
   - repeat constructor; cbn; auto.
   - split; vm_compute; reflexivity.
+Qed.
+
+(* ---------- no backwards-compatible repair of the file format exists ----------
+   Whatever bytes are in the file, History.Load never returns a form with a TAB inside a line or a
+   first line that begins with white space.  So no encoder (escaping or otherwise) can make such forms
+   survive a restart as long as Load reads every existing history file as it does now. *)
+Lemma split_on_no_sep sep : forall bs p, In p (split_on sep bs) -> forallb (fun b => negb (N.eqb b sep)) p = true.
+Proof.
+  induction bs as [|b bs IH]; cbn [split_on]; intros p H.
+  - destruct H as [<-|[]]. reflexivity.
+  - destruct (N.eqb b sep) eqn:E.
+    + destruct H as [<-|H]; [reflexivity|apply IH, H].
+    + destruct (split_on sep bs) as [|q qs] eqn:Es.
+      * destruct H as [<-|[]]. cbn. rewrite E. reflexivity.
+      * destruct H as [<-|H]; [|apply IH; right; exact H].
+        cbn [forallb]. rewrite E. cbn [negb andb]. apply IH. left. reflexivity.
+Qed.
+
+Lemma trim_left_head l : match trim_left l with b :: _ => is_space b = false | [] => True end.
+Proof. induction l as [|b l IH]; cbn [trim_left]; [exact I|]. destruct (is_space b) eqn:E; [exact IH|exact E]. Qed.
+Lemma trim_left_suffix l : exists p, l = p ++ trim_left l.
+Proof.
+  induction l as [|b l [p Hp]]; [exists []; reflexivity|]. cbn [trim_left]. destruct (is_space b).
+  - exists (b :: p). cbn [app]. rewrite <- Hp. reflexivity.
+  - exists []. reflexivity.
+Qed.
+Lemma trim_space_head l : match trim_space l with b :: _ => is_space b = false | [] => True end.
+Proof.
+  unfold trim_space. set (u := trim_left l). destruct (trim_left_suffix (rev u)) as [p Hp].
+  assert (Hu : u = rev (trim_left (rev u)) ++ rev p).
+  { rewrite <- (rev_involutive u) at 1. rewrite Hp at 1. apply rev_app_distr. }
+  destruct (rev (trim_left (rev u))) as [|b t]; [exact I|].
+  pose proof (trim_left_head l) as Hh. fold u in Hh. rewrite Hu in Hh. exact Hh.
+Qed.
+
+Theorem load_forms_shape bs f : In f (load_bytes bs) ->
+  Forall (fun l => forallb (fun b => negb (N.eqb b TAB)) l = true) f /\
+  match f with l :: _ => starts_ok l = true | [] => False end.
+Proof.
+  unfold load_bytes. intros H. apply in_flat_map in H as (l0 & _ & H).
+  pose proof (trim_space_head l0) as Hh. destruct (trim_space l0) as [|b t] eqn:Et; [destruct H|].
+  destruct H as [<-|[]]. split.
+  - apply Forall_forall. intros p Hp. apply (split_on_no_sep TAB _ _ Hp).
+  - cbn [split_on]. assert (Hb : N.eqb b TAB = false).
+    { destruct (N.eqb b TAB) eqn:E; [|reflexivity]. apply N.eqb_eq in E. subst b. discriminate Hh. }
+    rewrite Hb. destruct (split_on TAB t); cbn [starts_ok]; rewrite Hh; reflexivity.
+Qed.
+
+Theorem no_compatible_encoding (enc : list form -> list byte) :
+  load_bytes (enc [F_lead]) <> [F_lead] /\ load_bytes (enc [F_tab]) <> [F_tab].
+Proof.
+  split; intros H.
+  - destruct (load_forms_shape (enc [F_lead]) F_lead) as [_ Hs]; [rewrite H; left; reflexivity|]. discriminate Hs.
+  - destruct (load_forms_shape (enc [F_tab]) F_tab) as [Ht _]; [rewrite H; left; reflexivity|].
+    inversion Ht as [|? ? Hl _]; subst. discriminate Hl.
 Qed.
